@@ -32,6 +32,9 @@ def cases(ctx):
             except ValueError:
                 continue
             tc = rng.choice(list(range(9, 19)) + [20, 21, 22]) if base == 360 else rng.randrange(5, 9)
+            # the Lean Spec encoder (the one the theorems talk about) against this Python encoder
+            yield dict(op="cpr_encode %d/1 %d %s %s" % (base, i, cpr.fr(F(la)), cpr.fr(F(lo))),
+                       real=("h:cpr.encode_str", [base, i, cpr.fr(F(la)), cpr.fr(F(lo))]), tag="spec-encoder")
             m = frame(rng, tc, e, i)
             combos = [(rng.choice(OFFS), rng.choice(OFFS)) for _ in range(3)] if not ctx.thorough else [(a, b) for a in OFFS for b in OFFS]
             for oa, ob in combos:
